@@ -2,6 +2,7 @@ package props
 
 import (
 	"fmt"
+	"reflect"
 	"strings"
 
 	j "github.com/mfcochauxlaberge/jsonapi"
@@ -182,6 +183,7 @@ type c18Sys struct {
 	// side showed before the last operation.
 	twin    *c18Sys
 	pending int
+	eager   bool
 }
 
 func c18New(soft bool, how, shape string) *c18Sys {
@@ -238,6 +240,21 @@ func (y *c18Sys) Apply(op int) (fails []mc.Violation, fatal bool) {
 	if y.initErr != "" {
 		return []mc.Violation{{Sig: y.sig() + "derive-panic", Msg: fmt.Sprintf("%s() panicked: %s", y.how, y.initErr)}}, true
 	}
+	if y.eager && op < 2*len(y.muts) {
+		// second search (one level shallower): both sides are read around every mutation
+		other, side, other2 := y.der, "source", "derived object"
+		if op >= len(y.muts) {
+			other, side, other2 = y.src, "derived", "source"
+		}
+		before := c18Read(other)
+		fatal = y.act(op)
+		if after := c18Read(other); after != before {
+			m := y.muts[op%len(y.muts)]
+			fails = append(fails, mc.Violation{Sig: y.sig() + "shared:" + m.name,
+				Msg: fmt.Sprintf("%s(): %s on the %s changed what is read from the %s (everything read before and after every step):\n  before: %s\n  after:  %s", y.how, m.name, side, other2, before, after)})
+		}
+		return
+	}
 	if y.pending >= 0 {
 		y.twin.act(y.pending)
 	}
@@ -250,6 +267,9 @@ func (y *c18Sys) Apply(op int) (fails []mc.Violation, fatal bool) {
 
 // Final: the last operation must not have changed anything read from the other side.
 func (y *c18Sys) Final() (fails []mc.Violation, fatal bool) {
+	if y.eager {
+		return nil, false
+	}
 	op := y.pending
 	if op < 0 || op == 2*len(y.muts) || y.initErr != "" {
 		return nil, false
@@ -271,14 +291,21 @@ func (y *c18Sys) Final() (fails []mc.Violation, fatal bool) {
 	return
 }
 
-func c18BFS(c *Ctx, soft bool, how, shape string) *mc.BFS {
+func c18BFS(c *Ctx, soft bool, how, shape string) *mc.BFS { return c18BFSMode(c, soft, how, shape, false) }
+
+func c18BFSMode(c *Ctx, soft bool, how, shape string, eager bool) *mc.BFS {
 	depth := 3
 	if Thorough() {
 		depth = 4
 	}
+	name := fmt.Sprintf("C18/%s-%s-%s", implName(soft), how, shape)
+	if eager {
+		depth--
+		name += "-read-around-every-step"
+	}
 	muts := c18Muts()
 	return &mc.BFS{
-		Name: fmt.Sprintf("C18/%s-%s-%s", implName(soft), how, shape), NOps: 2*len(muts) + 1, MaxDepth: depth, Workers: c.Workers, R: c.R,
+		Name: name, NOps: 2*len(muts) + 1, MaxDepth: depth, Workers: c.Workers, R: c.R,
 		OpName: func(i int) string {
 			if i == 2*len(muts) {
 				return "read everything from both"
@@ -289,7 +316,7 @@ func c18BFS(c *Ctx, soft bool, how, shape string) *mc.BFS {
 			}
 			return side + muts[i%len(muts)].name
 		},
-		New: func() mc.System { return c18New(soft, how, shape) },
+		New: func() mc.System { y := c18New(soft, how, shape); y.eager = eager; return y },
 	}
 }
 
@@ -316,6 +343,19 @@ func c18Initial(x *mc.Exec) {
 		}
 		if got, want := FieldNames(y.der.GetType()), FieldNames(y.src.GetType()); fmt.Sprint(got) != fmt.Sprint(want) {
 			x.Fail(sig+"copy-fields", "%s Copy(): fields %v, source has %v", implName(soft), got, want)
+		}
+		// to-many lists are values too: same ids in the same order, and the library's own
+		// equality helper agrees
+		for _, n := range RelNames(y.src.GetType()) {
+			a, aok := y.src.Get(n).([]string)
+			b, bok := y.der.Get(n).([]string)
+			if aok && (!bok || len(a) != len(b) || (len(a) > 0 && !reflect.DeepEqual(a, b))) {
+				x.Fail(sig+"copy-differs:to-many-order", "%s Copy(): relationship %q reads %v from the copy, %v from the source", implName(soft), n, y.der.Get(n), a)
+			}
+		}
+		var eq bool
+		if p := Try(func() { eq = j.EqualStrict(y.src, y.der) && j.EqualStrict(y.der, y.src) }); p != "" || !eq {
+			x.Fail(sig+"copy-not-equal", "%s Copy(): EqualStrict(source, copy) is false right after copying (panic %q)", implName(soft), p)
 		}
 		// the same values also means the same payload (an empty byte string is not a null one)
 		t := y.src.GetType()
@@ -496,6 +536,18 @@ func init() {
 				}
 				soft, how, shape := soft, how, shape
 				hs = append(hs, Harness{
+					Name: fmt.Sprintf("C18/%s-%s-%s-read-around-every-step", implName(soft), how, shape),
+					Custom: func(c *Ctx) {
+						if !c18BFSMode(c, soft, how, shape, true).Explore() {
+							c.R.Cap("C18 incomplete")
+						}
+					},
+					ReplayCustom: func(c *Ctx, ch []int) []mc.Violation {
+						v, _ := c18BFSMode(c, soft, how, shape, true).ReplayHistory(ch)
+						return v
+					},
+				})
+				hs = append(hs, Harness{
 					Name: fmt.Sprintf("C18/%s-%s-%s", implName(soft), how, shape),
 					Custom: func(c *Ctx) {
 						if !c18BFS(c, soft, how, shape).Explore() {
@@ -521,7 +573,7 @@ func init() {
 		Harness{Name: "C18/first-wrapper", Body: c18FirstWrapper}, Harness{Name: "C18/soft-newfunc", Body: c18SoftNewFunc})
 	Register(&Prop{
 		ID: "C18",
-		Rule: "Engine B: for {soft, wrapped} x {Copy(), New()} (soft also for a type without relationships and a type without attributes) a source resource holding a byte string, a pointer to a byte string, nullable pointers, a time and an unsorted 3-element to-many list and a 1-element to-many list is derived, then ALL histories (depth <= 3 quick / 4 thorough) of 20 mutations applied to either side plus the operation 'read everything from both' (Set of several fields and id, AddAttr/AddRel/RemoveField on its type, edits through the soft resource's exported Type pointer, deleting from / adding to the maps returned by Attrs(), Rels() and GetType(), MarshalResource with relationship data (sorts in place), Filter '=' on the to-many (sorts in place), writing element 0 of the slices obtained from Get for []byte, []string and *[]byte) are explored with deep-snapshot de-duplication; nothing is read between the operations of a history (reading is an operation): after the last mutation everything readable from the OTHER side must equal what an equal pair that underwent all but that mutation shows. Same for Type.Copy under AddAttr/RemoveAttr/AddRel/RemoveRel. Engine A: the derived object right after derivation equals its source and marshals identically, also when its byte strings are empty but non-nil (Copy) / is zero-valued (New). Every state is a distinct pair of heaps",
+		Rule: "Engine B: for {soft, wrapped} x {Copy(), New()} (soft also for a type without relationships and a type without attributes) a source resource holding a byte string, a pointer to a byte string, nullable pointers, a time and an unsorted 3-element to-many list and a 1-element to-many list is derived, then ALL histories (depth <= 3 quick / 4 thorough) of 20 mutations applied to either side plus the operation 'read everything from both' (Set of several fields and id, AddAttr/AddRel/RemoveField on its type, edits through the soft resource's exported Type pointer, deleting from / adding to the maps returned by Attrs(), Rels() and GetType(), MarshalResource with relationship data (sorts in place), Filter '=' on the to-many (sorts in place), writing element 0 of the slices obtained from Get for []byte, []string and *[]byte) are explored with deep-snapshot de-duplication; nothing is read between the operations of a history (reading is an operation; a second, one level shallower search reads both sides around every step): after the last mutation everything readable from the OTHER side must equal what an equal pair that underwent all but that mutation shows. Same for Type.Copy under AddAttr/RemoveAttr/AddRel/RemoveRel. Engine A: the derived object right after derivation equals its source and marshals identically, also when its byte strings are empty but non-nil (Copy) / is zero-valued (New). Every state is a distinct pair of heaps",
 		Assumptions: []string{"writing through a nullable pointer obtained from Get (other than the slice behind *[]byte) is not judged: the statement lists slices only"},
 		Harnesses: hs,
 	})
